@@ -6,7 +6,7 @@ reading the property states, (c) with one redundant pair around each subterm in 
 rendering must evaluate to the exact rational value of the *tree* (R2 tolerance for floats)."""
 import itertools
 
-from ..core import Sub, fail, close, isnum
+from ..core import Sub, fail, close, isnum, scale
 from .. import formula as F
 
 # delivery-channel differential (core.Env): of every 6 evaluations that bind variables, one is repeated with the
@@ -418,4 +418,35 @@ class Deep(Sub):
         return check_tree(env, t, extras=False)
 
 
-SUBS = [Arith(), FloatGrouping(), Zero(), Compare(), Amp(), Deep()]
+
+class ChainScale(Sub):
+    name = 'c04.scale'
+    rule = ('size ladder of the number n of operators in one formula: 1+1+...+1, 1-1-...-1 (left-associative: 2-n), 2*3+2*3+... , '
+            '1+2*1+2*... (* before +), n parentheses around one term, -(-(...)) n unary minus signs, alternating +/- with a '
+            'variable; exact integer results; non-trivial = all')
+    min_cases = 40
+    min_nontrivial = 40
+
+    def cases(self, tier, unit):
+        for n in scale(tier):
+            yield [n]
+
+    def check(self, env, case):
+        n = case[0]
+        env.nt()
+        P = [('+'.join(['1'] * (n + 1)), n + 1), ('-'.join(['1'] * (n + 1)), 1 - n), ('+'.join(['2*3'] * n), 6 * n),
+             ('1' + '+2*1' * n, 1 + 2 * n), ('100' + '-2*3' * n, 100 - 6 * n), ('2' + '*1' * n + '+1', 3),
+             ('(' * min(n, 400) + '7' + ')' * min(n, 400), 7), ('-' * min(n, 400) + '5', 5 if min(n, 400) % 2 == 0 else -5),
+             ('va' + ''.join('+va' if i % 2 else '-va' for i in range(n)), 7 if n % 2 == 0 else 0),
+             ('1' + '+1' * n + '=' + str(n + 1), True), ('1' + '/1' * n, 1.0), ('64' + '/2' * min(n, 6), 64 / 2.0 ** min(n, 6))]
+        out = []
+        for f, want in P:
+            o = env.evo(f, {'va': 7})
+            if o != ['v', want] or type(o[1]) is not type(want):
+                out.append(fail('a chain of %d operators (%s ... %s) gives %r, expected %r' % (n, f[:24], f[-12:], o, want), want, o))
+                if len(out) >= 3:
+                    break
+        return out
+
+
+SUBS = [Arith(), FloatGrouping(), Zero(), Compare(), Amp(), Deep(), ChainScale()]
